@@ -102,6 +102,7 @@ def run_check(prop, tier, seed, keep=False):
     work = os.path.join(VERIF, '.work', '%s-%s-%d' % (prop, tier, os.getpid()))
     shutil.rmtree(work, ignore_errors=True)
     os.makedirs(work)
+    os.environ['VERIF_IODIR'] = os.path.join(work, 'io')
     spec = scripts.PROPS[prop]
     gen_stats = []
     cases = []
@@ -134,7 +135,7 @@ def run_check(prop, tier, seed, keep=False):
             if clause.startswith('T.'):
                 raise tlc.TLCError('trace machinery clause failed: %s in %s step %d' % (clause, fr['id'], fr['step']))
             if not clause.startswith(prefix):
-                other_props[clause.split('.')[0]] += 1
+                other_props[clause] += 1
                 continue
             ent = findings.match(kf, prop, clause, meta, ev, tr)
             if ent is not None:
